@@ -4,23 +4,138 @@ use super::*;
 use crate::biguint::verif_common as vc;
 use alloc::{vec, vec::Vec};
 
-#[kani::proof]
-#[kani::unwind(12)]
-#[kani::stub(alloc::vec::Vec::with_capacity, vc::vec_with_capacity_ignored)]
-#[kani::stub(alloc::vec::Vec::shrink_to_fit, vc::noop_shrink)]
-fn c06_x_probe_digits_be() {
-    let d: [u8; 2] = kani::any();
-    kani::assume(d[0] < 10 && d[1] < 10);
-    let r = from_radix_digits_be(&d, 10);
-    kani::assert(vc::eq_window(vc::digits(&r), &[(d[0] as u64) * 10 + d[1] as u64]), "VERIF value");
+// power-of-two radices: digit i of the output holds bits [i*w, (i+1)*w) of the value (aligned w = 1,2,4,8 and unaligned w = 3,5,6,7)
+fn bits_of(x: &[u64], start: u64, w: u32) -> u8 {
+    let mut v: u8 = 0;
+    let mut j = 0;
+    while j < w {
+        if vc::ref_bit(x, start + j as u64) {
+            v |= 1 << j;
+        }
+        j += 1;
+    }
+    v
 }
-#[kani::proof]
-#[kani::unwind(12)]
-fn c06_x_probe_strip() {
-    let b: [u8; 2] = kani::any();
-    kani::assume(b[0] < 128 && b[1] < 128);
-    let s = unsafe { core::str::from_utf8_unchecked(&b) };
-    let t = s.strip_prefix('+');
-    kani::assert(t.is_some() == (b[0] == b'+'), "VERIF strip");
-    kani::assert(s.starts_with('_') == (b[0] == b'_'), "VERIF starts");
+macro_rules! to_pow2_shape {
+    ($name:ident, $l:expr, $w:expr, $unw:expr) => {
+        #[kani::proof]
+        #[kani::unwind($unw)]
+        #[kani::stub(alloc::vec::Vec::with_capacity, vc::vec_with_capacity_ignored)]
+        fn $name() {
+            let a0: [u64; $l] = vc::any_canon::<$l>();
+            let a = vc::mk_from(&a0);
+            let out = to_radix_le(&a, 1u32 << $w);
+            let nbits: u64 = 64 * ($l as u64) - a0[$l - 1].leading_zeros() as u64;
+            let nd = ((nbits + $w - 1) / $w) as usize;
+            kani::assert(out.len() == nd, "VERIF to_radix_le (2^w): number of digits is not minimal");
+            let i: usize = kani::any();
+            kani::assume(i < nd);
+            kani::assert(out[i] == bits_of(&a0, (i as u64) * $w, $w), "VERIF to_radix_le (2^w): digit is not the corresponding bit group");
+        }
+    };
 }
+macro_rules! from_pow2_shape {
+    ($name:ident, $n:expr, $w:expr, $words:expr) => {
+        #[kani::proof]
+        #[kani::unwind(40)]
+        #[kani::stub(alloc::vec::Vec::with_capacity, vc::vec_with_capacity_ignored)]
+        #[kani::stub(alloc::vec::Vec::shrink_to_fit, vc::noop_shrink)]
+        fn $name() {
+            let d: [u8; $n] = kani::any();
+            let mut i = 0;
+            while i < $n {
+                kani::assume((d[i] as u32) < (1u32 << $w));
+                i += 1;
+            }
+            let r = from_radix_le(&d, 1u32 << $w);
+            match r {
+                None => kani::assert(false, "VERIF from_radix_le (2^w) rejected valid digits"),
+                Some(u) => {
+                    kani::assert(vc::is_canonical(&u), "VERIF from_radix_le (2^w) result not canonical");
+                    let k: usize = kani::any();
+                    kani::assume(k < $n);
+                    kani::assert(bits_of(vc::digits(&u), (k as u64) * $w, $w) == d[k], "VERIF from_radix_le (2^w): bit group differs from the digit");
+                    kani::assert(vc::digits(&u).len() <= $words, "VERIF from_radix_le (2^w): too many digits");
+                    let top: u64 = kani::any();
+                    kani::assume(top >= ($n as u64) * $w && top < 64 * $words);
+                    kani::assert(!vc::ref_bit(vc::digits(&u), top), "VERIF from_radix_le (2^w): stray bit above the input");
+                }
+            }
+        }
+    };
+}
+// the per-radix 'largest power fitting a digit' tables (compile-time constants: the harness reads the compiled table)
+macro_rules! table_shape {
+    ($name:ident, $lo:expr, $hi:expr) => {
+        #[kani::proof]
+        #[kani::unwind(140)]
+        fn $name() {
+            let mut r: u32 = $lo;
+            while r < $hi {
+                if !r.is_power_of_two() {
+                    let (base, power) = get_radix_base(r);
+                    let mut b: u128 = 1;
+                    let mut k = 0;
+                    while k < power {
+                        b *= r as u128;
+                        k += 1;
+                    }
+                    kani::assert(b == base as u128, "VERIF get_radix_base: base != radix^power");
+                    kani::assert(b * (r as u128) > u64::MAX as u128, "VERIF get_radix_base: a larger power would still fit a digit");
+                    let (hb, hp) = get_half_radix_base(r);
+                    let mut b2: u128 = 1;
+                    let mut k = 0;
+                    while k < hp {
+                        b2 *= r as u128;
+                        k += 1;
+                    }
+                    kani::assert(b2 == hb as u128 && b2 <= big_digit::HALF as u128 && b2 * (r as u128) > big_digit::HALF as u128, "VERIF get_half_radix_base");
+                }
+                r += 1;
+            }
+        }
+    };
+}
+// single-chunk Horner input: every digit string of length N below the radix (N <= power, so no big multiplication is involved)
+macro_rules! digits_be_shape {
+    ($name:ident, $n:expr, $radix:expr) => {
+        #[kani::proof]
+        #[kani::unwind(12)]
+        #[kani::stub(alloc::vec::Vec::with_capacity, vc::vec_with_capacity_ignored)]
+        #[kani::stub(alloc::vec::Vec::shrink_to_fit, vc::noop_shrink)]
+        fn $name() {
+            let d: [u8; $n] = kani::any();
+            let mut v: u64 = 0;
+            let mut i = 0;
+            while i < $n {
+                kani::assume((d[i] as u32) < $radix);
+                v = v * $radix + d[i] as u64;
+                i += 1;
+            }
+            let r = from_radix_digits_be(&d, $radix);
+            kani::assert(vc::is_canonical(&r) && vc::eq_window(vc::digits(&r), &[v]), "VERIF from_radix_digits_be value");
+        }
+    };
+}
+to_pow2_shape!(c06_q_to_pow2_1_w1, 1, 1, 70);
+to_pow2_shape!(c06_q_to_pow2_1_w4, 1, 4, 20);
+to_pow2_shape!(c06_q_to_pow2_2_w8, 2, 8, 20);
+to_pow2_shape!(c06_q_to_pow2_1_w3, 1, 3, 30);
+to_pow2_shape!(c06_q_to_pow2_2_w5, 2, 5, 34);
+to_pow2_shape!(c06_t_to_pow2_2_w7, 2, 7, 30);
+to_pow2_shape!(c06_t_to_pow2_2_w6, 2, 6, 30);
+to_pow2_shape!(c06_t_to_pow2_2_w2, 2, 2, 70);
+from_pow2_shape!(c06_q_from_pow2_n9_w8, 9, 8, 2);
+from_pow2_shape!(c06_q_from_pow2_n17_w4, 17, 4, 2);
+from_pow2_shape!(c06_q_from_pow2_n13_w5, 13, 5, 2);
+from_pow2_shape!(c06_q_from_pow2_n22_w3, 22, 3, 2);
+from_pow2_shape!(c06_t_from_pow2_n24_w6, 24, 6, 3);
+from_pow2_shape!(c06_t_from_pow2_n19_w7, 19, 7, 3);
+from_pow2_shape!(c06_t_from_pow2_n33_w2, 33, 2, 2);
+table_shape!(c06_q_tables_3_40, 3, 40);
+table_shape!(c06_q_tables_40_128, 40, 128);
+table_shape!(c06_q_tables_128_256, 128, 256);
+digits_be_shape!(c06_q_digits_be_n3_r10, 3, 10);
+digits_be_shape!(c06_q_digits_be_n5_r36, 5, 36);
+digits_be_shape!(c06_q_digits_be_n2_r255, 2, 255);
+digits_be_shape!(c06_t_digits_be_n7_r3, 7, 3);
